@@ -631,7 +631,7 @@ def correspondence(ctx):
 
     # ------------------------------------------------ jacobi_sum_clenshaw_der
     cc = coef_cases(rng, nmax)
-    for ci, (n, kind, pos) in enumerate(cc):
+    for ci, (n, kind, pos) in enumerate(cc * ctx.scale(3, 10)):
         for j in ((1, 2, 3, 4) if ctx.thorough else (1 + ci % 4, 1 + (ci + 2) % 4)):
             s = coef_vector(rng, n, kind, pos)
             a, b = AB[(ci + j) % len(AB)]
@@ -699,7 +699,7 @@ def correspondence(ctx):
     J.recurrence_abc.cache_clear()
 
     # ------------------------------------------------ clenshaw_qbfs_der / clenshaw_q2d_der
-    for ci, (n, kind, pos) in enumerate(cc):
+    for ci, (n, kind, pos) in enumerate(cc * ctx.scale(5, 24)):
         j = 1 + ci % 4
         cs = coef_vector(rng, n, kind, pos)
         u = rng.uniform(0.1, 0.95, 2)
@@ -898,7 +898,7 @@ def correspondence(ctx):
 
     # ------------------------------------------------ sag and slopes: 2D-Q
     qkinds = ['cos', 'sin', 'mixed', 'holes', 'ragged', 'm1long', 'len1']
-    for ci in range(ctx.scale(70, 600)):
+    for ci in range(ctx.scale(400, 5000)):
         kind = qkinds[ci % len(qkinds)]
         cm0, ams, bms = q2d_content(rng, kind, ctx.scale(3, 5), ctx.scale(5, 7))
         u, t = float(rng.uniform(0.1, 0.95)), float(rng.uniform(0, 6.2))
@@ -926,7 +926,7 @@ def correspondence(ctx):
     # ------------------------------------------------ conic base surfaces and Q2d_and_der (x/raytracing/surfaces.py)
     S = _surf()
     kappas = [-2.5, -1.0, -0.7, 0.0, 0.6, 1.3]
-    for ci in range(ctx.scale(36, 300)):
+    for ci in range(ctx.scale(300, 4000)):
         c = float(rng.choice([-1, 1]) * rng.uniform(0.01, 0.08))
         k = kappas[ci % len(kappas)]
         lim = 0.9 / (max(abs(1 + k), abs(k), 0.2) * c * c)        # keeps both radicands >= 0.1
